@@ -104,6 +104,8 @@ def class_source(case, base):
             parent = "L1, L2"
         out.append(f"class L{lvl}({parent}):")
         body = []
+        if lvl == 0 and case.get("verbose"):
+            body.append("    VERBOSE_LOGGING = True")
         seen = []
         for l, sd in defs:
             if l != lvl:
@@ -1053,6 +1055,8 @@ def decode_sm_case(code, profile):
     case["cname"] = ["m", "shooter", "arm2"][cname_c]
     if t0_c == 2:
         case["objrefs"] = True
+    if t0_c in (1, 3):
+        case["verbose"] = True  # the logging branches of execute()/done() run as well
     return case
 
 
